@@ -190,6 +190,13 @@ class StmtMixin:
     def st_FunctionDef(self, st, fr):
         fr.locals[st.name] = Func(None, st, fr, module=fr.module, defcls=fr.defcls)
 
+    def _is_chain_walk(self, st, fr):
+        t = st.test
+        if isinstance(t, ast.Compare) and len(t.ops) == 1 and isinstance(t.ops[0], ast.IsNot) and isinstance(t.left, ast.Name) and isinstance(t.comparators[0], ast.Constant) and t.comparators[0].value is None:
+            v = fr.lookup(t.left.id)
+            return isinstance(v, (Obj, Unknown)) and not getattr(v, "concrete", False)
+        return False
+
     def st_While(self, st, fr):
         n = 0
         while True:
@@ -198,6 +205,12 @@ class StmtMixin:
                 self.exec_block(st.orelse, fr)
                 return
             n += 1
+            if n >= 3 and self._is_chain_walk(st, fr):
+                # `while x is not None: ...; x = x.<link>` over summary objects: the chain of enclosing
+                # objects is followed for three links, then taken to have ended
+                self.note(f"chain walk at line {st.lineno} cut after {n} links")
+                self.exec_block(st.orelse, fr)
+                return
             if n > 64:
                 raise AnalysisError(f"while loop at line {st.lineno} does not terminate abstractly")
             try:
